@@ -818,6 +818,6 @@ META = {
              "universally quantified positive roots; executable via an exact rational square root).  Domain restrictions in the "
              "theorems: tol >= 0 for snapping, 0 < tol < 1/2 for snap_scale/snap_affine idempotence, resolution != 0, x0 <= x1, "
              "off_pix in [0,1) or None, alignment > 0, pow2 extremality for x >= 1, Bin1D size > 0 and direction +-1."),
-    "technique": "Coq proof over hand-written Gallina model (Q/Z) + exact differential correspondence (vm_compute) + Fraction predicates",
+    "technique": "Coq proof over hand-written Gallina model (Q/Z) + exact differential correspondence (vm_compute) + Fraction predicates + leaf functions regenerated from source by py2v on every run and proved equal to the model (source_is_model theorem)",
     "design_ref": "DESIGN.md section 5, C20; section 3",
 }
